@@ -90,7 +90,10 @@ TAGGED = [_tagged('internal', 'kind', ('circle', 'square')), _tagged('external',
 # members that recognise a typed value by comparing it (literals, enums) next to values whose == is not a bool (arrays)
 ARRAYS = [('lit', (None, True)), ('lit', (1, 2)), ('enum', 'IntE'), ('nd', 'int64'), ('nd', None), ('seq', 'List', S('int')), S('int'), S('none'),
           ('enum', 'IE0'), ('lit', ('a', 'x'))]
-FAMILIES = {'arrays': ARRAYS, 'tagged': TAGGED, 'temporal': TEMPORAL, 'subtyped': SUBTYPED, 'paths': PATHS, 'maps2': MAPS2, 'numeric': NUMERIC, 'stringy': STRINGY, 'seq': SEQS + CLASSES, 'map': MAPS + CLASSES, 'mixed': NUMERIC + STRINGY + SEQS + MAPS + CLASSES + [S('none'), S('any')]}
+# parametrizations of one generic dataclass: equal up to type parameters, but different types with different field converters
+GENERICS = [('gbox', S('int')), ('gbox', S('float')), ('gbox', S('str')), ('gbox', ('seq', 'List', S('int'))), ('gbox', S('bool')),
+            ('map', 'Dict', S('str'), S('float')), S('none')]
+FAMILIES = {'generics': GENERICS, 'arrays': ARRAYS, 'tagged': TAGGED, 'temporal': TEMPORAL, 'subtyped': SUBTYPED, 'paths': PATHS, 'maps2': MAPS2, 'numeric': NUMERIC, 'stringy': STRINGY, 'seq': SEQS + CLASSES, 'map': MAPS + CLASSES, 'mixed': NUMERIC + STRINGY + SEQS + MAPS + CLASSES + [S('none'), S('any')]}
 
 
 @st.composite
@@ -221,6 +224,11 @@ def check(case: t.Any, ctx: Ctx) -> None:
             ctx.fail('serialise-by-accepting-member', type(d_u).__name__, f"{ident}; x = {short(x, 100)}; into_data(x, U) raised {type(d_u).__name__}: {str(d_u)[:200]}")
             return
         ok_members = []
+        loose: t.List[t.Any] = []
+        # (exotic containers and arrays kept at Any positions do not survive any serialisation: the stricter notion of "accepts"
+        #  below is applied when the typed value is what plain data gives)
+        (kp, xp) = outcome(lambda: pane.from_data(tg.plainify(v), UT))
+        strict = kp == 'ok' and same(xp, x) is None
         for (j, m) in enumerate(mnodes):
             conv = make_converter(m.pytype())
             try:
@@ -228,8 +236,16 @@ def check(case: t.Any, ctx: Ctx) -> None:
             except Exception:
                 continue
             (kj, d_j) = outcome(lambda: conv.into_data(x))
-            if kj == 'ok':
-                ok_members.append((j, d_j))
+            if kj != 'ok':
+                continue
+            # "accepts" in the public sense as well: what the member writes for x reads back, through that member alone, as x
+            # (a fast pass that waves through a value of a *neighbouring* type - another parametrization, a narrower class - does not count)
+            MT = m.pytype()
+            (kb, back) = outcome(lambda: pane.from_data(d_j, MT))
+            if strict and m.kind != 'ndarray' and not (kb == 'ok' and same(back, x) is None):
+                loose.append((j, d_j))
+                continue
+            ok_members.append((j, d_j))
         from .c05 import canon
         if not ok_members:
             # No member's fast pass recognises the typed value.  If a member nevertheless accepts x in the public sense (its own
